@@ -630,3 +630,44 @@ func (e *Engine) mustPrecede(first, second string) bool {
 	}
 	return false
 }
+
+// fieldOffset32: offset of the field named by a heap key "pkg.Type.field" under 32-bit gc sizes.
+func (e *Engine) fieldOffset32(key string) (int64, bool) {
+	i := strings.LastIndex(key, ".")
+	if i < 0 {
+		return 0, false
+	}
+	tn, fld := key[:i], key[i+1:]
+	j := strings.LastIndex(tn, ".")
+	if j < 0 {
+		return 0, false
+	}
+	pkg, ok := e.allPkgs[tn[:j]]
+	if !ok {
+		return 0, false
+	}
+	obj := pkg.Scope().Lookup(tn[j+1:])
+	if obj == nil {
+		return 0, false
+	}
+	st, ok := obj.Type().Underlying().(*types.Struct)
+	if !ok {
+		return 0, false
+	}
+	var fields []*types.Var
+	idx := -1
+	for k := 0; k < st.NumFields(); k++ {
+		fields = append(fields, st.Field(k))
+		if st.Field(k).Name() == fld {
+			idx = k
+		}
+	}
+	if idx < 0 {
+		return 0, false
+	}
+	sz := types.SizesFor("gc", "386")
+	if sz == nil {
+		return 0, false
+	}
+	return sz.Offsetsof(fields)[idx], true
+}
